@@ -70,7 +70,7 @@ type SugarDB struct {
 	}
 
 	// Global read-write mutex for entire store.
-	storeLock *sync.RWMutex
+	storeLock *storeRWMutex
 
 	// Data store to hold the keys and their associated data, expiry time, etc.
 	// The int key on the outer map represents the database index.
@@ -166,7 +166,7 @@ func NewSugarDB(options ...func(sugarDB *SugarDB)) (*SugarDB, error) {
 				Database: 0,
 			},
 		},
-		storeLock: &sync.RWMutex{},
+		storeLock: &storeRWMutex{},
 		store:     make(map[int]map[string]internal.KeyData),
 		memUsed:   0,
 		keysWithExpiry: struct {
